@@ -12,12 +12,17 @@ Identification used throughout: chibicc has no `long long` distinct from `long`
 import ChibiVerif.Model.Literals
 import ChibiVerif.Model.Text
 import ChibiVerif.Lemmas.LiteralsLemmas
+import ChibiVerif.Lemmas.TextLemmas
+import ChibiVerif.Lemmas.LiteralsReaderLemmas
 
 namespace ChibiVerif.Props.C11
 open ChibiVerif.Gen.Literals
 open ChibiVerif.Spec.Literals
 open ChibiVerif.Literals
 open ChibiVerif.Lemmas.Literals
+open ChibiVerif.Lemmas.Text
+open ChibiVerif.Lemmas.Readers
+open ChibiVerif.Text
 
 -- ------------------------------------------------------------------ integer constants (6.4.4.1)
 
@@ -239,5 +244,127 @@ theorem C11_prefix_types :
     charPrefixes.map (fun e => (e.1, e.2.1.size, e.2.1.isUnsigned)) =
       [([], 4, false), ([117], 2, true), ([76], 4, false), ([85], 4, true)] := by
   decide
+
+/-- **C11 (hexadecimal escapes).**  `\x` followed by hexadecimal digits and then by a byte that is not a
+    hexadecimal digit: every digit is consumed (6.4.4.4p7: "as many hexadecimal digits as follow") and the value is that
+    of the digit sequence (in `int`, i.e. modulo 2^32). -/
+theorem C11_escape_hex (x : Byte) (xs rest : List Byte) (hx : ∀ y ∈ x :: xs, isXDigit y = true)
+    (hend : isXDigit (byteAt rest 0) = false) :
+    readEscapedChar (120#8 :: x :: (xs ++ rest)) =
+      .ok (BitVec.ofNat 32 (hexEscape ((x :: xs).map (fun d => hexDigitValue d.toNat))), 2 + xs.length) :=
+  readEscapedChar_hex x xs rest hx hend
+
+example : (∀ y ∈ [0x34#8, 0x31#8], isXDigit y = true) ∧ isXDigit (byteAt [0x22#8] 0) = false := by decide
+
+-- ------------------------------------------------------------------ string literals: one source character (6.4.5p6)
+
+/-- **C11 (source characters in string literals).**  For every code point up to U+10FFFF other than the backslash,
+    written in the source as its UTF-8 sequence inside the literal (so before the closing quote at `endp`): the
+    `"…"`/`u8"…"` reader appends its UTF-8 bytes, the `u"…"` reader its UTF-16 code units, the `U"…"`/`L"…"` reader
+    the code point, and each advances by exactly the bytes of the character. -/
+theorem C11_string_char (p : List Byte) (endp fuel i : Nat) (acc : List Nat) (c : BitVec 32) (rest : List Byte)
+    (hc : c.toNat < 0x110000) (hne : c.toNat ≠ 92) (hi : i + utf8Len c.toNat ≤ endp) (hd : p.drop i = encodeUtf8 c ++ rest) :
+    narrowLoop p endp (fuel + utf8Len c.toNat) i acc =
+        narrowLoop p endp fuel (i + utf8Len c.toNat) ((encodeChar .none c.toNat).reverse ++ acc) ∧
+    utf16Loop p endp (fuel + 1) i acc =
+        utf16Loop p endp fuel (i + utf8Len c.toNat) ((encodeChar .u c.toNat).reverse ++ acc) ∧
+    utf32Loop p endp (fuel + 1) i acc =
+        utf32Loop p endp fuel (i + utf8Len c.toNat) ((encodeChar .U c.toNat).reverse ++ acc) := by
+  have hpos : 0 < utf8Len c.toNat := by unfold utf8Len; split <;> (try split) <;> (try split) <;> omega
+  exact ⟨narrowLoop_char p endp fuel i acc c rest hc hne hi hd,
+    utf16Loop_char p endp fuel i acc c rest hc hne (by omega) hd,
+    utf32Loop_char p endp fuel i acc c rest hc hne (by omega) hd⟩
+
+example : (0x20AC#32).toNat < 0x110000 ∧ (0x20AC#32).toNat ≠ 92 ∧
+    ([0x22#8, 0xE2#8, 0x82#8, 0xAC#8, 0x22#8] : List Byte).drop 1 = encodeUtf8 0x20AC#32 ++ [0x22#8] := by decide
+
+-- ------------------------------------------------------------------ adjacent string literals (6.4.5p5)
+
+/-- the computable `joinPrefix` has the declarative meaning of 6.4.5p5: the sequence has prefix `P` iff every token is
+    unprefixed or has prefix `P`, and `P` occurs unless it is "no prefix" -/
+theorem C11_join_prefix_spec (ps : List StrPrefix) (P : StrPrefix) :
+    joinPrefix ps = some P ↔ ((∀ p ∈ ps, p = .none ∨ p = P) ∧ (P = .none ∨ P ∈ ps)) :=
+  joinPrefix_spec ps P
+
+/-- **C11 (adjacent literals, two different prefixes).**  Diagnosed ("unsupported non-standard concatenation"):
+    6.4.5p2 makes u8 + wide a constraint violation, two different wide prefixes are implementation-defined. -/
+theorem C11_strings_join_diagnosed (t1 t2 : StrTok) (rest : List StrTok) (ps : List StrPrefix)
+    (h : AllPairs TokHasPrefix (t1 :: t2 :: rest) ps) (hj : joinPrefix ps = none) :
+    joinStrings (t1 :: t2 :: rest) = .error .nonStandardConcat :=
+  join_diagnosed t1 t2 rest ps h hj
+
+/-- **C11 (adjacent literals, compatible prefixes).**  The result has the element size of the sequence's prefix; its code
+    units are the concatenation of the tokens' code units, where a narrow token next to a wide one is re-read from its
+    source text with the wide reader; there is one terminator: `array_len = Σ (array_lenᵢ − 1) + 1`. -/
+theorem C11_strings_join (t1 t2 : StrTok) (rest : List StrTok) (ps : List StrPrefix) (P : StrPrefix) (r : StrTok)
+    (h : AllPairs TokHasPrefix (t1 :: t2 :: rest) ps) (hj : joinPrefix ps = some P)
+    (hr : joinStrings (t1 :: t2 :: rest) = .ok r) :
+    r.elem.size = P.elemSize ∧
+    ∃ toks, AllPairs (fun t t' => t' = t ∨ (t.elem.size = 1 ∧ ∃ ty, ty.size = P.elemSize ∧ 1 < ty.size ∧ retokenize t ty = .ok t'))
+        (t1 :: t2 :: rest) toks ∧
+      r.units = (toks.map (·.units)).flatten ∧
+      r.units.length + 1 = (toks.map (fun t => (t.units.length + 1) - 1)).sum + 1 :=
+  join_result t1 t2 rest ps P r h hj hr
+
+/-- non-vacuity: `"a" u"b"` as the tokenizer reads them; the narrow token is re-read as UTF-16 -/
+example : AllPairs TokHasPrefix
+      [⟨.ty_char, [97], 3, [0x22#8, 0x61#8, 0x22#8]⟩, ⟨.ty_ushort, [98], 4, [0x75#8, 0x22#8, 0x62#8, 0x22#8]⟩] [.none, .u] ∧
+    joinPrefix [.none, .u] = some .u ∧
+    joinStrings [⟨.ty_char, [97], 3, [0x22#8, 0x61#8, 0x22#8]⟩, ⟨.ty_ushort, [98], 4, [0x75#8, 0x22#8, 0x62#8, 0x22#8]⟩] =
+      .ok ⟨.ty_ushort, [97, 98], 3, [0x22#8, 0x61#8, 0x22#8]⟩ := by
+  refine ⟨.cons (by unfold TokHasPrefix; decide) (.cons (by unfold TokHasPrefix; decide) .nil), by decide, by decide⟩
+
+-- ------------------------------------------------------------------ source text: BOM, line ends, splices, UCNs (5.1.1.2)
+
+/-- **C11 (BOM).**  A UTF-8 byte-order mark at the start of the file is skipped and nothing else is. -/
+theorem C11_text_bom (t : List Byte) :
+    skipBOM (0xEF#8 :: 0xBB#8 :: 0xBF#8 :: t) = t ∧
+    (¬ (∃ r, t = 0xEF#8 :: 0xBB#8 :: 0xBF#8 :: r) → skipBOM t = t) := by
+  refine ⟨by simp [skipBOM], ?_⟩
+  intro h
+  match t with
+  | [] | [_] | [_, _] => rfl
+  | a :: b :: c :: r =>
+    simp only [skipBOM]
+    split
+    · rename_i hc; exact absurd ⟨r, by rw [hc.1, hc.2.1, hc.2.2]⟩ h
+    · rfl
+
+/-- **C11 (line ends).**  After `canonicalize_newline` the LF-terminated lines are exactly the source lines when
+    CR LF, a lone CR and LF all end a line; no CR remains; a text without CR is unchanged. -/
+theorem C11_text_newlines (t : List Byte) :
+    splitOn LF (canonicalizeNewline t) = splitLines CR LF t ∧ CR ∉ canonicalizeNewline t ∧
+    (CR ∉ t → canonicalizeNewline t = t) :=
+  ⟨canon_lines t, canon_no_cr t, canon_id t⟩
+
+/-- **C11 (line splicing).**  After `remove_backslash_newline` the logical lines (first line exactly, later lines up to
+    blank lines) are those of the text with every backslash-newline deleted; the number of newlines is unchanged (the
+    deleted ones are re-inserted after the end of the logical line); a text without a splice is unchanged. -/
+theorem C11_text_splice (t : List Byte) :
+    logicalLines (splitOn LF (removeBackslashNewline t)) = logicalLines (splitOn LF (unsplice BSL LF t)) ∧
+    (removeBackslashNewline t).count LF = t.count LF ∧
+    (unsplice BSL LF t = t → removeBackslashNewline t = t) :=
+  ⟨splice_lines t 0, by have := splice_count t 0; simpa [removeBackslashNewline] using this, splice_id t⟩
+
+/-- **C11 (universal character names).**  `\uXXXX` / `\UXXXXXXXX` (after text without a backslash) is replaced by
+    the `encode_utf8` bytes of the value of its digits — by `C11_utf8_layout` the RFC 3629 sequence, i.e. exactly the bytes
+    of the same character written directly — and the rest of the text is processed as if it stood alone. -/
+theorem C11_text_ucn (pre post : List Byte) (d0 d1 d2 d3 d4 d5 d6 d7 : Byte) (hpre : BSL ∉ pre)
+    (h0 : isXDigit d0 = true) (h1 : isXDigit d1 = true) (h2 : isXDigit d2 = true) (h3 : isXDigit d3 = true)
+    (h4 : isXDigit d4 = true) (h5 : isXDigit d5 = true) (h6 : isXDigit d6 = true) (h7 : isXDigit d7 = true) :
+    (digitsValue 16 [hexVal d0, hexVal d1, hexVal d2, hexVal d3] ≠ 0 →
+      convertUniversalChars (pre ++ BSL :: 117#8 :: d0 :: d1 :: d2 :: d3 :: post) =
+        pre ++ encodeUtf8 (BitVec.ofNat 32 (digitsValue 16 [hexVal d0, hexVal d1, hexVal d2, hexVal d3])) ++
+          convertUniversalChars post) ∧
+    (digitsValue 16 [hexVal d0, hexVal d1, hexVal d2, hexVal d3, hexVal d4, hexVal d5, hexVal d6, hexVal d7] ≠ 0 →
+      convertUniversalChars (pre ++ BSL :: 85#8 :: d0 :: d1 :: d2 :: d3 :: d4 :: d5 :: d6 :: d7 :: post) =
+        pre ++ encodeUtf8 (BitVec.ofNat 32
+            (digitsValue 16 [hexVal d0, hexVal d1, hexVal d2, hexVal d3, hexVal d4, hexVal d5, hexVal d6, hexVal d7])) ++
+          convertUniversalChars post) :=
+  ⟨cuc_ucn4 pre post d0 d1 d2 d3 hpre h0 h1 h2 h3, cuc_ucn8 pre post d0 d1 d2 d3 d4 d5 d6 d7 hpre h0 h1 h2 h3 h4 h5 h6 h7⟩
+
+/-- non-vacuity: `\u00e9` -/
+example : isXDigit 0x30#8 = true ∧ isXDigit 0x65#8 = true ∧ isXDigit 0x39#8 = true ∧
+    digitsValue 16 [hexVal 0x30#8, hexVal 0x30#8, hexVal 0x65#8, hexVal 0x39#8] = 0xE9 := by decide
 
 end ChibiVerif.Props.C11
